@@ -162,6 +162,12 @@ func c08Rules(p *core.Prog, r *core.Run) {
 		}
 	}
 	r.Floor("C08.I6", 2)
+	// ... and the connection the alert is written to
+	alertTargets(p, r, "C08.I6")
+	// ... and the HPKE context the payload is opened with
+	if m.open.Instr != nil {
+		openReceiverNonNil(p, r, m, "C08.I6")
+	}
 }
 
 // indexSafety is provided by interval.go.
